@@ -530,6 +530,13 @@ theorem joining_pull_verifies (cfg : Cfg) (hash : Bytes → Digest) (name : Name
       obtain ⟨d, c, hd, hc⟩ := (dlLoopJ_ok_present x jr _ hdl).2 l hl
       exact ⟨d, c, hd, hc, hs d c hc⟩
 
+/-- non-vacuity of `joining_pull_verifies`: a joiner whose transfer delivered the right bytes succeeds (and installs
+    its manifest), one whose transfer delivered other bytes fails with a digest mismatch and leaves no blob -/
+example : (pullJ cfgF toyHash 1 regA Scripts.honest dA (.done cA) st0).1 = .ok () ∧
+    lookupM 1 (pullJ cfgF toyHash 1 regA Scripts.honest dA (.done cA) st0).2.1.manifests = some (.readable regA.manifest) ∧
+    (pullJ cfgF toyHash 1 regA Scripts.honest dA (.done [9, 9]) st0).1 = .err .digestMismatch ∧
+    (pullJ cfgF toyHash 1 regA Scripts.honest dA (.done [9, 9]) st0).2.1.blobs dA = none := by decide
+
 /-- the joined pull of the two-pull scenario: when B joins A's transfer while it is in flight (`during`),
     B's success means B's layers are stored and verified — also when the shared transfer was corrupt -/
 theorem pull2_joiner_success_verified (cfg : Cfg) (hash : Bytes → Digest) (x : Digest)
@@ -627,6 +634,29 @@ theorem history_inv (cfg : Cfg) (hash : Bytes → Digest) (hearly : cfg.verifyEa
     have h1 := history_every_state_intact cfg hash hearly [s] st hb hn (o, st', log) (by simp [runHistory, hp])
     exact ih st' h1.1 h1.2
 
+/-- **After any history a later retry can still succeed** (current tree = `verifyEarly`): whatever happened before —
+    any number of failed, interrupted, successful pulls of any names against any registries under any fault scripts —
+    if the registry is then honest and the store holds no resume state for the layers still missing, the pull
+    succeeds, installs the served manifest with every layer verified, and leaves every other name intact.
+    (With resume state: `stuck_plan_never_recovers` is the boundary; the general resume case is not proved.) -/
+theorem history_then_honest_retry_succeeds (cfg : Cfg) (hash : Bytes → Digest) (hearly : cfg.verifyEarly = true)
+    (hret : 0 < cfg.retries) (hmin : 0 < cfg.minSize) (hmax : 0 < cfg.maxSize)
+    (steps : List HStep) (st : Store) (hb : BlobInv hash st) (hn : NameInv hash st)
+    (name : Name) (reg : Registry) (hreg : HonestReg hash reg)
+    (hclean : CleanFor (finalStore cfg hash steps st) reg) :
+    let r := pull cfg hash name reg Scripts.honest (finalStore cfg hash steps st)
+    r.1 = .ok () ∧ lookupM name r.2.1.manifests = some (.readable reg.manifest) ∧
+    (∀ l ∈ reg.manifest.all, ∃ d c, l.digest = .ok d ∧ r.2.1.blobs d = some c ∧ hash c = d) ∧
+    NameInv hash r.2.1 := by
+  obtain ⟨hb', hn'⟩ := history_inv cfg hash hearly steps st hb hn
+  have hok := retry_can_succeed cfg hash name reg (finalStore cfg hash steps st) hret hmin hmax hreg hb' hclean
+  generalize hp : pull cfg hash name reg Scripts.honest (finalStore cfg hash steps st) = r at hok ⊢
+  obtain ⟨o, st', log⟩ := r
+  simp only at hok
+  subst hok
+  have h1 := pull_success_complete_fixed cfg hash name reg Scripts.honest _ st' log hearly hb' hp
+  exact ⟨rfl, h1.2, h1.1, pull_success_preserves_names cfg hash name reg Scripts.honest _ st' log hearly hb' hn' hp⟩
+
 /-- what a name resolves to after a history, read off the steps and their outcomes alone: the manifest served in the
     LAST SUCCESSFUL pull of that name (what it resolved to before the history if there was none) -/
 def resolved (n : Name) : List (HStep × Outcome) → Option MFile → Option MFile
@@ -688,5 +718,11 @@ theorem republished_tag_installs_each_version :
 example : cfgF.verifyEarly = true ∧ republishSteps.length = 5 ∧
     resolved 0 (republishSteps.zip ((runHistory cfgF toyHash republishSteps st0).map (·.1))) none =
       some (.readable regV3.manifest) := by decide
+
+/-- non-vacuity of `history_then_honest_retry_succeeds`: with no steps its hypotheses are those of `retry_can_succeed`
+    (satisfied by `regAB`, `st0`: see the example there); and after the five-step re-publication history the honest
+    registry `regAB` is pulled successfully -/
+example : (pull cfgF toyHash 0 regAB Scripts.honest (finalStore cfgF toyHash republishSteps st0)).1 = .ok () ∧
+    CleanFor (finalStore cfgF toyHash [] st0) regAB := ⟨by decide, fun _ _ _ _ _ => rfl⟩
 
 end OllamaVerif.C03
